@@ -213,6 +213,36 @@ Theorem C17_dispatch_captured_follows_view : forall (R : rules) (c : cfg) (D : d
 Proof. exact captured_follows_view. Qed.
 Print Assumptions C17_dispatch_captured_follows_view.
 
+(* the functions tensorly/__init__.py binds by name (tensorly.context, tensorly.tensor, tensorly.dot, ...; likewise a
+   library module's `from tensorly.tenalg import outer`) are closures for ever: through such a binding the call follows
+   the caller in EVERY history from import on - use_static_dispatch included, no side condition *)
+Theorem C17_dispatch_top_binding_always_dynamic : forall (R : rules) (c : cfg) (D : drules) (nc : ncfg)
+    (own0 : tid -> option inst) (h1 : list dop) (t : tid) (n : fname) (h2 : list dop),
+  top_bound nc n = true -> is_fun nc n = true ->
+  let d := dinit nc own0 in
+  nth (length h1) (dtrace R c D nc d (h1 ++ DCall t RTop n :: h2)) DNone
+  = DRan (view (own0 t) (Named 0) (events R c (init own0) (sel_ops h1)) t).
+Proof. exact top_binding_always_dynamic. Qed.
+Print Assumptions C17_dispatch_top_binding_always_dynamic.
+
+(* get_backend() names the object a dispatched function runs on *)
+Theorem C17_dispatch_query_consistent : forall (R : rules) (c : cfg) (D : drules) (nc : ncfg) (d : dst) (t : tid) (r : route) (n : fname),
+  dyn_ok nc d -> is_fun nc n = true ->
+  exists b, dout R c D nc d (DCall t r n) = DRan b /\ dout R c D nc d (DSel (Query t)) = DSelObs (OName (name_of c b)) /\
+            dout R c D nc d (DSel (Dispatch t)) = DSelObs (OInst b).
+Proof. exact dispatch_query_consistent. Qed.
+Print Assumptions C17_dispatch_query_consistent.
+
+(* tenalg dispatch: a tensor-algebra function is dispatched on tensorly.tenalg's manager and its body calls dispatched
+   functions of tensorly.backend's manager: in thread t it is executed by t's tenalg view and computes on t's backend
+   view, each determined by the operations on its own manager alone *)
+Theorem C17_tenalg_call_runs_on_both_views : forall (R : rules) (cb ct : cfg) (h : list mop) (s : st2) (t : tid),
+  composite (run2 R cb ct s h) t
+  = (view (tls (s_ta s) t) (shared (s_ta s)) (events R ct (s_ta s) (proj true h)) t,
+     view (tls (s_bk s) t) (shared (s_bk s)) (events R cb (s_bk s) (proj false h)) t).
+Proof. exact composite_view. Qed.
+Print Assumptions C17_tenalg_call_runs_on_both_views.
+
 (* the other clauses seen through dispatched CALLS: isolation (whatever the other threads do thread-locally - sets,
    contexts, captures, calls, use_dynamic_dispatch - a function called by t through any route runs on the same object
    as before) and restore (after Enter ... Exit around any properly nested history, normal or exceptional exit, a
